@@ -18,7 +18,7 @@ PID = "C10"
 LEVEL = "exploration"
 RULE = ("coordinates: tracer x ice {Specialized x (Antarctic, Arasim, Greenland), Basic x Antarctic, Uniform x UniformIce, Layered x (U|U, A|A)}, "
         "signal model {ARZ, AVZ, ZHS}, generator {List 1 particle, List 3 particles incl. a below-threshold weight, Cylindrical, Rectangular "
-        "(owned randomness), FileGenerator}, offcone_max {40, None, 0.5}, weight_min {None, 0.1, (0.5,0.5)}, attenuation_interpolation {0.1, None}, "
+        "(owned randomness), FileGenerator}, offcone_max {None, 40, 0.5, 0}, weight_min {None, 0.1, (0.5,0.25), 0}, attenuation_interpolation {0.1, None}, "
         "writer {none, recording stub, real HDF5}, triggers {None, function, dict}, antenna set {2, 1, 3 antennas incl. one in the air}; all "
         "configurations within deviation bound 2 (quick) / 3 (thorough) of the base; two consecutive events per configuration; "
         "distinct_nontrivial = distinct configurations in which at least one non-empty signal was delivered")
@@ -31,8 +31,8 @@ COORDS = {
     "tracer": ["spec_antarctic", "spec_arasim", "spec_greenland", "basic_antarctic", "uniform", "layered_uu", "layered_aa"],
     "signal": ["ARZ", "AVZ", "ZHS"],
     "gen": ["list1", "list3", "cyl", "box", "file"],
-    "offcone": [None, 40, 0.5],
-    "weight": [None, 0.1, (0.5, 0.25)],
+    "offcone": [None, 40, 0.5, 0],
+    "weight": [None, 0.1, (0.5, 0.25), 0],
     "interp": [0.1, None],
     "writer": ["none", "stub", "hdf5"],
     "triggers": ["none", "func", "dict"],
